@@ -61,6 +61,44 @@ theorem join_keeps_left_unique [DecidableEq κ] (kl : α → κ) (kr : β → κ
       simp only at hcol hxy
       exact List.mem_map.mpr ⟨a', ha', by rw [hcol, ← hxy]⟩
 
+/-- a LEFT OUTER join on a key that is unique on the right returns every left row exactly once, in order … -/
+theorem left_join_unique_right_fst [DecidableEq κ] (kl : α → κ) (kr : β → κ) (L : List α) (R : List β) (hR : (R.map kr).Nodup) :
+    (leftJoinOn kl kr L R).map (·.1) = L := by
+  induction L with
+  | nil => simp [leftJoinOn]
+  | cons a t ih =>
+    simp only [leftJoinOn, List.flatMap_cons, List.map_append] at *
+    rw [ih]
+    have hone := C07.filter_key_le_one kr R hR (kl a)
+    match hm : R.filter (fun b => kl a == kr b) with
+    | [] => simp
+    | [b] => simp
+    | b :: c :: rest => rw [hm] at hone; simp at hone
+
+/-- … hence keeps every unique column of the left (preserved) side unique -/
+theorem left_join_keeps_left_unique [DecidableEq κ] (kl : α → κ) (kr : β → κ) (col : α → γ) (L : List α) (R : List β)
+    (hL : (L.map col).Nodup) (hR : (R.map kr).Nodup) : ((leftJoinOn kl kr L R).map fun ab => col ab.1).Nodup := by
+  have h : ((leftJoinOn kl kr L R).map fun ab => col ab.1) = ((leftJoinOn kl kr L R).map (·.1)).map col := by
+    rw [List.map_map]; rfl
+  rw [h, left_join_unique_right_fst kl kr L R hR]; exact hL
+
+/-- but a unique column of the *right* side does not stay unique under a LEFT OUTER join: unmatched left rows all carry NULL there
+(what the recorded outer-join findings of this property are about) -/
+theorem left_join_right_unique_counterexample :
+    ¬ ((leftJoinOn (fun (a : Nat) => a) (fun (b : Nat) => b) [1, 2] [7]).map (·.2)).Nodup := by decide
+
+/-- OFFSET / LIMIT after a WHERE keep uniqueness (the rows returned are a sub-bag) -/
+theorem map_rows_unique (col : α → κ) (p : α → Bool) (offset limit : Option Nat) (b : List α) (h : (b.map col).Nodup) :
+    ((mapRows p offset limit b).map col).Nodup := by
+  have hs : (mapRows p offset limit b).Sublist b := by
+    unfold mapRows
+    cases offset <;> cases limit <;> simp only
+    · exact List.filter_sublist
+    · exact (List.take_sublist _ _).trans List.filter_sublist
+    · exact (List.drop_sublist _ _).trans List.filter_sublist
+    · exact (List.take_sublist _ _).trans ((List.drop_sublist _ _).trans List.filter_sublist)
+  exact h.sublist (hs.map col)
+
 /-- a literal value list is declared unique exactly when it has no repeated value (adjacent or not) -/
 theorem values_unique_iff [DecidableEq α] (vals : List α) : Rel.valuesUnique vals = true ↔ vals.Nodup := by
   unfold Rel.valuesUnique
